@@ -61,8 +61,77 @@ func symbolsIn(text string, into map[string]bool) {
 
 // buildQuery renders one obligation as an SMT-LIB2 script.
 func (e *Engine) buildQuery(o *Obligation, axioms []axiomTerm, models bool) string {
+	return e.buildQuerySliced(o, axioms, models, 0)
+}
+
+// sliceFacts keeps the facts within `depth` symbol-sharing steps of the goal and
+// path condition (depth 0 = all facts).  Dropping assumptions is always sound.
+func sliceFacts(o *Obligation, depth int) []string {
+	if depth <= 0 {
+		return o.Facts
+	}
+	// every quantifier-free fact is kept (cheap for the solvers); a quantified fact is kept
+	// only if it is within `depth` symbol-sharing steps of the goal
+	syms := map[string]bool{}
+	symbolsIn(o.Goal, syms)
+	factSyms := make([]map[string]bool, len(o.Facts))
+	quantified := make([]bool, len(o.Facts))
+	for i, f := range o.Facts {
+		quantified[i] = strings.Contains(f, "(forall ") || strings.Contains(f, "(exists ")
+		if quantified[i] {
+			m := map[string]bool{}
+			symbolsIn(f, m)
+			factSyms[i] = m
+		}
+	}
+	included := make([]bool, len(o.Facts))
+	for d := 0; d < depth; d++ {
+		var add []int
+		for i := range o.Facts {
+			if included[i] || !quantified[i] {
+				continue
+			}
+			for k := range factSyms[i] {
+				if syms[k] && !isBuiltinSym(k) && !strings.Contains(k, "!b") {
+					add = append(add, i)
+					break
+				}
+			}
+		}
+		if len(add) == 0 {
+			break
+		}
+		for _, i := range add {
+			included[i] = true
+			for k := range factSyms[i] {
+				syms[k] = true
+			}
+		}
+	}
+	var out []string
+	for i, f := range o.Facts {
+		if included[i] || !quantified[i] {
+			out = append(out, f)
+		}
+	}
+	return out
+}
+
+func isBuiltinSym(k string) bool {
+	switch k {
+	case "and", "or", "not", "=>", "=", "ite", "select", "store", "forall", "exists", "!", ":pattern", "Int", "Bool", "Str", "Array",
+		"<", "<=", ">", ">=", "+", "-", "*", "div", "mod", "true", "false", "as", "const", "distinct", "0", "1":
+		return true
+	}
+	if len(k) > 0 && (k[0] >= '0' && k[0] <= '9') {
+		return true
+	}
+	return false
+}
+
+func (e *Engine) buildQuerySliced(o *Obligation, axioms []axiomTerm, models bool, depth int) string {
 	var body bytes.Buffer
-	for _, f := range o.Facts {
+	for _, f := range sliceFacts(o, depth) {
 		body.WriteString("(assert " + f + ")\n")
 	}
 	for _, p := range o.PC {
@@ -147,6 +216,7 @@ type solveOpts struct {
 	workers  int
 	replay   *ReplaySpec
 	property string
+	noSlice  bool
 }
 
 type cacheEntry struct {
@@ -175,7 +245,8 @@ func (e *Engine) solveAll(obls []*Obligation, axiomsFor func(o *Obligation) []ax
 		wg.Add(1)
 		go func(idx int, o *Obligation) {
 			defer wg.Done()
-			q := e.buildQuery(o, axiomsFor(o), false)
+			axs := axiomsFor(o)
+			q := e.buildQuery(o, axs, false)
 			o.SMTHash = hashText(q)
 			if opt.useCache {
 				if data, err := os.ReadFile(filepath.Join(opt.cacheDir, o.SMTHash+".json")); err == nil {
@@ -186,14 +257,50 @@ func (e *Engine) solveAll(obls []*Obligation, axiomsFor func(o *Obligation) []ax
 					}
 				}
 			}
-			path := filepath.Join(opt.outDir, fmt.Sprintf("%04d_%s.smt2", idx, sanitize(o.Name)))
-			if len(path) > 200 {
-				path = filepath.Join(opt.outDir, fmt.Sprintf("%04d_%s.smt2", idx, o.SMTHash[:16]))
+			base := filepath.Join(opt.outDir, fmt.Sprintf("%04d_%s", idx, sanitize(o.Name)))
+			if len(base) > 200 {
+				base = filepath.Join(opt.outDir, fmt.Sprintf("%04d_%s", idx, o.SMTHash[:16]))
 			}
+			path := base + ".smt2"
 			os.WriteFile(path, []byte(q), 0o644)
 			o.SMTPath = path
 			sem <- struct{}{}
-			e.race(o, path, opt)
+			// staged attempts: the full prefix first (short limit), then assumption slices of
+			// increasing depth, then the full prefix with the whole limit.  A discharged slice
+			// is a proof (fewer assumptions); the answer for the full prefix is what is reported otherwise.
+			short := opt.timeout / 4
+			if short < 3 {
+				short = 3
+			}
+			first := opt
+			first.timeout = short
+			e.race(o, path, first)
+			total := o.Seconds
+			if o.Result != "unsat" && o.Result != "disagree" && !opt.noSlice {
+				fullRes, fullOut := o.Result, o.Output
+				for _, depth := range []int{1, 2, 3} {
+					sq := e.buildQuerySliced(o, axs, false, depth)
+					if sq == q {
+						break
+					}
+					sp := fmt.Sprintf("%s.slice%d.smt2", base, depth)
+					os.WriteFile(sp, []byte(sq), 0o644)
+					so := &Obligation{Name: o.Name}
+					e.race(so, sp, first)
+					total += so.Seconds
+					os.Remove(sp)
+					if so.Result == "unsat" {
+						o.Result, o.Solver, o.Output = "unsat", so.Solver+fmt.Sprintf(" (assumptions sliced to depth %d)", depth), so.Output
+						break
+					}
+				}
+				if o.Result != "unsat" {
+					o.Result, o.Output = fullRes, fullOut
+					e.race(o, path, opt)
+					total += o.Seconds
+				}
+			}
+			o.Seconds = total
 			<-sem
 			if o.Result == "unsat" {
 				if opt.useCache {
@@ -227,7 +334,15 @@ func runSolver(ctx context.Context, sd solverDef, file string, timeout, seed int
 	cmd.Run()
 	secs := time.Since(start).Seconds()
 	text := out.String()
-	first := strings.TrimSpace(strings.SplitN(text, "\n", 2)[0])
+	first := ""
+	for _, ln := range strings.Split(text, "\n") {
+		ln = strings.TrimSpace(ln)
+		if ln == "" || strings.HasPrefix(ln, "WARNING") {
+			continue
+		}
+		first = ln
+		break
+	}
 	res := "unknown"
 	switch {
 	case first == "unsat":
